@@ -54,7 +54,7 @@ COMPONENTS = {
 
 OPS = ["set_weights", "set_means", "set_variances", "set_floor", "em_step", "em_step",
        "deepcopy", "pickle", "hdf5_from", "hdf5_load", "nudge_variances", "nudge_floor",
-       "em_many", "aug_assign", "edit_reassign"]
+       "em_many", "aug_assign", "edit_reassign", "lend_arrays"]
 
 
 def setup():
@@ -117,6 +117,13 @@ def gen_case(rng, tier):
             # the caller keeps the array it assigned, edits it in place and assigns it again
             ops.append({"op": name, "attr": rng.choice(["variance_thresholds", "variances", "means"]),
                         "k": rng.choice([0.3, 0.5, 2.0, 3.0, 10.0])})
+        elif name == "lend_arrays":
+            # `adapted.variances = ubm.variances`: the arrays this machine holds (and the ones
+            # the caller assigned to it) are assigned to ANOTHER machine with other floors,
+            # which is then modified / trained
+            ops.append({"op": name, "floor_factor": rng.choice([0.1, 1.5, 3.0, 10.0]),
+                        "then": rng.choice(["nothing", "aug", "set_floor", "fit"]),
+                        "seed": rng.randint(0, 10 ** 6)})
         elif name == "nudge_floor":
             ops.append({"op": name, "eps": rng.choice([1e-9, 1e-7, 1e-6, 5e-6, 1e-4]),
                         "times": rng.randint(1, 10)})
@@ -225,6 +232,7 @@ def run_case(case, replay=None):
     m, prior = _build(case)
     tmp = tempfile.mkdtemp(prefix="verif-c17-")
     nontrivial = False
+    held = []
     try:
         v = _check(m, probe, -1, "construct")
         if v is not None:
@@ -239,7 +247,9 @@ def run_case(case, replay=None):
                     elif name == "set_means":
                         m.means = A(o["v"])
                     elif name == "set_variances":
-                        m.variances = A(o["v"])
+                        arr = A(o["v"])
+                        held.append(arr)  # the caller keeps the array it assigned
+                        m.variances = arr
                     elif name == "set_floor":
                         old = np.asarray(m.variance_thresholds, float)
                         new = np.asarray(_floor(o["v"]), float)
@@ -303,6 +313,27 @@ def run_case(case, replay=None):
                                 keep *= k
                             setattr(m, attr, keep)
                             rec.probe("edited_array_reassigned")
+                    elif name == "lend_arrays":
+                        other = GMMMachine(m.n_gaussians)
+                        other.variance_thresholds = float(np.mean(np.asarray(m.variances))) * o["floor_factor"]
+                        for arr in held[-3:]:  # arrays the caller assigned to m earlier
+                            if np.shape(arr) == np.shape(m.variances):
+                                other.variances = arr
+                        other.weights = m.weights
+                        other.means = m.means
+                        other.variances = m.variances
+                        if o["then"] == "aug":
+                            other.variance_thresholds *= 2.0
+                            other.weights = np.asarray(other.weights) * 0.5
+                        elif o["then"] == "set_floor":
+                            other.variance_thresholds = np.asarray(other.variances) * 4.0
+                        elif o["then"] == "fit":
+                            lrs = np.random.RandomState(o["seed"])
+                            other.max_fitting_steps = 2
+                            other.update_variances = other.update_weights = True
+                            other.fit(np.asarray(other.means)[lrs.randint(0, m.n_gaussians, size=8)]
+                                      + lrs.randn(8, np.asarray(m.means).shape[1]))
+                        rec.probe("arrays_lent_to_another_machine")
                     elif name == "nudge_variances":
                         nrs = np.random.RandomState(o["seed"])
                         for _ in range(o["times"]):
